@@ -123,6 +123,11 @@ Fixpoint link_build (fuel : nat) (here : lpath) (s : schema) (lt : ltab) {struct
     end
   end.
 
+(* a tree REBUILT from its description (UnserializeScope): every scope of it is a plain struct value, none went
+   through NewScopeSchema; ONE ApplySelf of the outermost scope links the whole tree — a nested scope hands its
+   OWN table down when the self namespace is applied (link_ns, SScope case) *)
+Definition link_rebuilt (fuel : nat) (s : schema) : outcome ltab := link_ns fuel None "" [] s [].
+
 (* s.ApplyNamespace(tab, ns) for an external namespace *)
 Definition link_ext (fuel : nat) (ns : string) (tab : objtab) (s : schema) (lt : ltab) : outcome ltab :=
   link_ns fuel (Some (tab, LExt ns)) ns [] s lt.
